@@ -234,6 +234,33 @@ macro_rules! opt_elem {
 }
 opt_elem!(i32);
 opt_elem!(u8);
+int_elem!(i128, ElemTy::OptI128);
+int_elem!(u16, ElemTy::OptU16);
+macro_rules! opt_elem_full {
+    ($t:ty, $ty:expr) => {
+        impl Elem for Option<$t> {
+            const TY: ElemTy = $ty;
+            fn from_raw(r: i64) -> Self {
+                if r == i64::MIN {
+                    None
+                } else {
+                    Some(r as $t)
+                }
+            }
+            fn to_raw(&self) -> i64 {
+                match self {
+                    None => i64::MIN,
+                    Some(v) => *v as i64,
+                }
+            }
+        }
+        opt_elem!($t);
+    };
+}
+opt_elem_full!(i64, ElemTy::OptI64);
+opt_elem_full!(i128, ElemTy::OptI128);
+opt_elem_full!(u16, ElemTy::OptU16);
+
 
 impl Elem for Option<N64> {
     const TY: ElemTy = ElemTy::OptN64;
@@ -605,6 +632,55 @@ impl OrdElem for Reent {
     }
 }
 
+/// A zero-sized element: every element equals every other one.
+#[derive(Clone, Copy, Debug, PartialEq, Eq, PartialOrd, Ord)]
+pub struct Zst;
+macro_rules! zst_op {
+    ($tr:ident, $f:ident) => {
+        impl std::ops::$tr for Zst {
+            type Output = Zst;
+            fn $f(self, _o: Zst) -> Zst {
+                Zst
+            }
+        }
+    };
+}
+zst_op!(Add, add);
+zst_op!(Sub, sub);
+zst_op!(Mul, mul);
+zst_op!(Div, div);
+zst_op!(Rem, rem);
+impl FromPrimitive for Zst {
+    fn from_i64(_n: i64) -> Option<Zst> {
+        Some(Zst)
+    }
+    fn from_u64(_n: u64) -> Option<Zst> {
+        Some(Zst)
+    }
+}
+impl ToPrimitive for Zst {
+    fn to_i64(&self) -> Option<i64> {
+        Some(0)
+    }
+    fn to_u64(&self) -> Option<u64> {
+        Some(0)
+    }
+}
+impl Elem for Zst {
+    const TY: ElemTy = ElemTy::Zst;
+    fn from_raw(_r: i64) -> Self {
+        Zst
+    }
+    fn to_raw(&self) -> i64 {
+        0
+    }
+}
+impl OrdElem for Zst {
+    fn num(&self) -> NumVal {
+        NumVal::I(0)
+    }
+}
+
 /// numeric value of a raw encoding, for reference computations
 pub fn num_of_raw(ty: ElemTy, raw: i64) -> NumVal {
     match ty {
@@ -612,6 +688,7 @@ pub fn num_of_raw(ty: ElemTy, raw: i64) -> NumVal {
         ElemTy::F32 => NumVal::F(f32::from_bits(raw as u32) as f64),
         ElemTy::U64 => NumVal::I(raw as u64 as i128),
         ElemTy::Keyed => NumVal::I((raw >> 32) as i128),
+        ElemTy::Zst => NumVal::I(0),
         _ => NumVal::I(raw as i128),
     }
 }
